@@ -68,7 +68,9 @@ class VMDK(AlignedStream):
                         self.disks.append(SparseDisk(sdisk_fh, parent=self.parent))
                     elif extent.type in ["VMFS", "FLAT"]:
                         rdisk_fh = path.with_name(extent.filename).open("rb")
-                        self.disks.append(RawDisk(rdisk_fh, extent.sectors * SECTOR_SIZE))
+                        self.disks.append(
+                            RawDisk(rdisk_fh, extent.sectors * SECTOR_SIZE, start_sector=extent.start_sector or 0)
+                        )
 
             elif magic in (COWD_MAGIC, VMDK_MAGIC, SESPARSE_MAGIC):
                 sparse_disk = SparseDisk(fh)
@@ -125,10 +127,14 @@ class VMDK(AlignedStream):
 
 
 class RawDisk:
-    def __init__(self, fh: BinaryIO, size: int | None = None, offset: int = 0, sector_offset: int = 0):
+    def __init__(
+        self, fh: BinaryIO, size: int | None = None, offset: int = 0, sector_offset: int = 0, start_sector: int = 0
+    ):
         self.fh = fh
         self.offset = offset
         self.sector_offset = sector_offset
+        # The sector in the file at which the data of this extent starts (last field of a FLAT extent description)
+        self.start_sector = start_sector
 
         if not size:
             fh.seek(0, io.SEEK_END)
@@ -146,7 +152,7 @@ class RawDisk:
     def read_sectors(self, sector: int, count: int) -> bytes:
         log.debug("RawDisk::read_sectors(0x%x)", sector)
 
-        self.fh.seek((sector - self.sector_offset) * SECTOR_SIZE)
+        self.fh.seek((self.start_sector + sector - self.sector_offset) * SECTOR_SIZE)
         return self.fh.read(count * SECTOR_SIZE)
 
 
